@@ -56,6 +56,34 @@ def canonicalTargetL (cwds : List (List Seg)) (t : Target) : Bool × List Seg :=
     | none => (true, clean t.segs)
   else (false, orDot (clean t.segs))
 
+def dotdot : Seg := ['.', '.']
+
+/-- `covers` of `drop_nested_targets` on target keys: a spelling with `..` relates to its own
+    repetition only; otherwise component-wise prefix (`.` covers every relative target) -/
+def covers (outer inner : List Seg) : Bool :=
+  if outer.contains dotdot || inner.contains dotdot then outer == inner
+  else outer.isPrefixOf inner
+
+/-- is the target at position `i` nested in (or a later repetition of) another target? -/
+def nestedAt (ts : List (List Seg)) (i : Nat) (t : List Seg) : Bool :=
+  ts.zipIdx.any (fun p => p.2 != i && covers p.1 t && !(covers t p.1 && i < p.2))
+
+/-- `drop_nested_targets` -/
+def dropNested (ts : List (List Seg)) : List (List Seg) :=
+  (ts.zipIdx.filter (fun p => !nestedAt ts p.2 p.1)).map (·.1)
+
+/-- `resolve_scan_paths`: `--include` replaces the positional targets; every target is reduced to
+    one spelling; nested targets are dropped.  Relative results only (`.` is the empty list);
+    a target that stays absolute is kept as it is. -/
+def resolveTargets (cwds : List (List Seg)) (ts : List Target) : List (Bool × List Seg) :=
+  let reduced := ts.map (canonicalTargetL cwds)
+  -- keys: a leading marker separates relative from absolute targets (`.` is the bare marker,
+  -- which is a prefix of every relative key and of no absolute one)
+  let key (r : Bool × List Seg) : List Seg :=
+    if r.1 then [] :: r.2 else dot :: (if r.2 = [dot] then [] else r.2)
+  let keys := reduced.map key
+  (reduced.zipIdx.filter (fun p => !nestedAt keys p.2 (key p.1))).map (·.1)
+
 /-- the walker yields `root.join(rel)` for every entry below the root (`rel = []` is the root) -/
 def walked (root : List Seg) (rel : List Seg) : List Seg := root ++ rel
 
